@@ -20,7 +20,8 @@ func init() {
 			"error, ENOSPC or EIO); quick: 10 drawn plans per history, thorough: the complete sweep over all positions for histories with <= 120 calls (else 40 drawn); " +
 			"oracles: no panic/hang; a commit hit by a fault returns an error; after every item a read transaction sees exactly the last successful commit; lock idle; " +
 			"transactions that begin after the last failing call commit; after disarming, clean reopen shows the last successful state or completely the state of a " +
-			"commit whose only failures were syncs; then a further transaction commits; distinct_nontrivial = distinct histories with >= 1 run in which the fault " +
+			"commit whose only failures were syncs; then a further transaction commits; in addition every size/read/mmap call of Open on the final image is failed once (Open must return an error, " +
+			"release lock and mapping, and the next clean Open must show the committed state); distinct_nontrivial = distinct histories with >= 1 run in which the fault " +
 			"made a Commit fail and later transactions ran; fault run counts are in coverage.classes_totals",
 		Assume: []string{
 			"writer drained after every scheduling call so that the k-th call of a kind is a function of the program",
@@ -113,6 +114,13 @@ func RunC08(p *harness.Program, thorough bool) Result {
 			plans = append(plans, faultPlan{simdisk.Fault{Kind: k, Ordinal: int(rnd() % uint64(counts[k])), Burst: 1 + int(rnd()%4),
 				Mode: ms[rnd()%uint64(len(ms))], NoSpace: rnd()%2 == 0}})
 		}
+	}
+
+	// I/O failures while opening the existing file: every size/read/mmap call of a
+	// clean Open is failed once; Open must return an error (no panic), release the
+	// file lock, and a following clean Open must show the committed state.
+	if v := openFaultPhase(ref, c); v != nil {
+		return Result{V: v, Counters: c}
 	}
 
 	nontrivial := false
@@ -281,6 +289,64 @@ func finishAfterFaults(r *harness.Runner) (v *harness.Violation) {
 	}
 	if sr.Counters["commit"] == 0 {
 		return &harness.Violation{Clause: clause("after-faults-commit"), Item: -1, Msg: "transaction after the failures stopped (and a clean reopen) did not commit"}
+	}
+	return nil
+}
+
+// openFaultPhase fails each I/O call of Open on the final image of the reference run.
+func openFaultPhase(ref *harness.Runner, c map[string]int) (v *harness.Violation) {
+	img := ref.Disk.Image()
+	model := ref.C
+	defer func() {
+		if x := recover(); x != nil {
+			v = &harness.Violation{Clause: "open-fault-panic", Item: -1, Msg: fmt.Sprintf("Open paniced under an injected I/O failure: %v [%s]", x, harness.TrimStack(debug.Stack()))}
+		}
+	}()
+	// count the calls of a clean open
+	d0 := simdisk.FromImage("open0", img)
+	d0.SetRecord(false)
+	d0.Arm(nil)
+	f0, err := txfile.VerifOpen(d0, txfile.Options{})
+	if err != nil {
+		return &harness.Violation{Clause: "reopen", Item: -1, Msg: fmt.Sprintf("clean open of the final image failed: %v", err)}
+	}
+	counts := d0.Counts()
+	f0.Close()
+	for _, k := range []simdisk.CallKind{simdisk.CallSize, simdisk.CallRead, simdisk.CallMMap} {
+		for ord := 0; ord < counts[k]; ord++ {
+			d := simdisk.FromImage("openfault", img)
+			d.SetRecord(false)
+			d.Arm(&simdisk.Fault{Kind: k, Ordinal: ord, Burst: 1})
+			f, err := txfile.VerifOpen(d, txfile.Options{})
+			c["open-fault-runs"]++
+			if err == nil {
+				// the failing call was not reached (or its failure is harmless): the file must work
+				vv := harness.VerifyAgainst(f, model, -1)
+				f.Close()
+				if vv != nil {
+					vv.Msg = fmt.Sprintf("Open with failing %s call #%d succeeded but: %s", k, ord, vv.Msg)
+					return vv
+				}
+				continue
+			}
+			if d.Locked() {
+				return &harness.Violation{Clause: "open-fault-lock", Item: -1, Msg: fmt.Sprintf("Open failed (%s call #%d failing) but left the file locked", k, ord)}
+			}
+			if d.LiveViews() != 0 {
+				return &harness.Violation{Clause: "open-fault-mmap", Item: -1, Msg: fmt.Sprintf("Open failed (%s call #%d failing) but left the file mapped", k, ord)}
+			}
+			d.Arm(nil)
+			f, err = txfile.VerifOpen(d, txfile.Options{})
+			if err != nil {
+				return &harness.Violation{Clause: "reopen-after-faults", Item: -1, Msg: fmt.Sprintf("after a failed Open (%s call #%d failing) the next clean Open failed: %v", k, ord, err)}
+			}
+			vv := harness.VerifyAgainst(f, model, -1)
+			f.Close()
+			if vv != nil {
+				vv.Msg = fmt.Sprintf("after a failed Open (%s call #%d failing): %s", k, ord, vv.Msg)
+				return vv
+			}
+		}
 	}
 	return nil
 }
